@@ -10,7 +10,7 @@ def _work(mname):
     return dis_rules.table_worker(mname, ("C02",))
 
 
-def collect(rep, prop, worker, min_tables=39, min_ops=4000):
+def collect(rep, prop, worker, min_tables=39, min_ops=4000, also=None):
     T = dis_rules.state()["T"]
     names = sorted(T.reachable)
     rep.floor("tables reachable from op_imports", len(names), min_tables)
@@ -23,6 +23,8 @@ def collect(rep, prop, worker, min_tables=39, min_ops=4000):
                 continue
             if p == prop:
                 rep.ob(rule, construct, detail, ok, expected=exp, derived=got, where=where, msg=msg)
+            elif also and p in also and rule in also[p][1]:
+                also[p][0].ob(rule, construct, detail, ok, expected=exp, derived=got, where=where, msg=msg)
     rep.configurations = nops
     rep.floor("(table, opcode) specialisations", nops, min_ops)
     rep.analysed("xdis.bytecode.get_logical_instruction_at_offset")
